@@ -64,11 +64,12 @@ class Notifications(object):
         await self.notify(height, set())
 
     async def on_mempool(self, touched, height):
-        self._touched_mp[height] = touched
+        # A set may still be pending at this height; merge, don't replace
+        self._touched_mp.setdefault(height, set()).update(touched)
         await self._maybe_notify()
 
     async def on_block(self, touched, height):
-        self._touched_bp[height] = touched
+        self._touched_bp.setdefault(height, set()).update(touched)
         self._highest_block = height
         await self._maybe_notify()
 
